@@ -15,7 +15,8 @@ Trace records (tuples, first element is the kind):
   ("classify", exc_idx, klass, ra, cls_idx)   classifier call and its answer
   ("rclassify", res_idx, klass, ra, cls_idx)  result classifier call and its answer
   ("strategy", stub, style, attempt, klass, ra, prev, remaining, cause, cls_idx, answer)
-  ("consume", granted, t)                     shared budget
+  ("consume", granted, t)                     shared budget, consumed by the library
+  ("consume_x", granted, t)                   shared budget, consumed by another party meanwhile
   ("metric", event, attempt, sleep_s, tags)   tags as sorted tuple of pairs
   ("log", event, fields)                      fields as sorted tuple of pairs
   ("handler", which, attempt, delay, decision)
@@ -201,6 +202,11 @@ DEFAULT_CFG = {
     "wall_jumps": False,
     "ra_ticks": 2,
     "frac": 0.0,
+    "nest": None,                # {"site": "aend"|"metric"|"strategy", "entry": ..., "script": [...]}:
+                                 # at that callback a whole nested call on the SAME policy object may
+                                 # run (choice point, 1 deviation) - single-threaded overlap of calls
+    "intrude": [],               # stub sites at which another user of the shared budget may
+                                 # consume a token (choice point, 1 deviation): "strategy", "classifier"
     "script_prefix": None,       # labels forced for the first ops of the first call (task sharding)
     "force_rc": False,
 }
@@ -233,6 +239,11 @@ class World:
         self.retry_objs = {}
         self.timeline_obj = None
         self.susp_after_throw = False
+        self._last_op_exc = None
+        self._nesting = False
+        self._nested_done = False
+        self._forced = None
+        self.nested_traces = []
         if cfg["wall_jumps"]:
             self.clock.wall_hook = self._wall
         self.clock.sleep_hook = self._default_sleep
@@ -264,6 +275,32 @@ class World:
     def _wall(self):
         c = self.ch.choose("wall", 3)
         return (0.0, 1.0e9, -1.0e9)[c]
+
+    def intrude(self, site):
+        if self.budget is not None and site in self.cfg["intrude"]:
+            if self.ch.choose("intrude", 2):
+                r = Budget.consume(self.budget)
+                self.trace.append(("consume_x", r, self.rel()))
+
+    def maybe_nest(self, site):
+        """Re-entrancy: while the library is inside a callback of call A, run a complete call B
+        through the same policy object.  B's records go to a separate trace."""
+        nest = self.cfg["nest"]
+        if not nest or nest["site"] != site or self._nesting or self._nested_done:
+            return
+        if not self.ch.choose("nest", 2):
+            return
+        self._nesting = True
+        self._nested_done = True
+        saved = (self.trace, self.op_n, self.ncalls, self._forced)
+        self.trace = []
+        self._forced = list(nest["script"])
+        try:
+            self.call(nest["entry"])
+        finally:
+            self.nested_traces.append(self.trace)
+            self.trace, self.op_n, self.ncalls, self._forced = saved
+            self._nesting = False
 
     def fault(self, site):
         faults = self.cfg["faults"]
@@ -350,6 +387,7 @@ class World:
             klass, ra = "U", None
         else:
             klass, ra = spec
+        self.intrude("classifier")
         self.fault("classifier")
         if ra is not None:
             c = Classification(klass=KL[klass], retry_after_s=ra * TAU)
@@ -381,6 +419,8 @@ class World:
         free = self.cfg["strat_free"]
 
         def answer():
+            world.maybe_nest("strategy")
+            world.intrude("strategy")
             world.fault("strategy")
             a = menu[world.ch.choose("strat", len(menu), free)] if len(menu) > 1 else menu[0]
             return a, strat_value(a)
@@ -472,6 +512,7 @@ class World:
 
     def on_metric(self, event, attempt, sleep_s, tags):
         self.trace.append(("metric", event, attempt, ticks(sleep_s), tuple(sorted(tags.items()))))
+        self.maybe_nest("metric")
         self.fault("metric")
 
     def on_log(self, event, fields):
@@ -492,6 +533,7 @@ class World:
                     "aend", which, ctx.attempt, enum_val(ctx.decision), enum_val(ctx.stop_reason),
                     ctx.cause, ticks(ctx.sleep_s), world.ident(ctx.exception),
                     world.ident(ctx.result), klass_name(cl.klass) if cl is not None else None))
+                world.maybe_nest("aend")
                 world.fault("aend")
         return hook
 
@@ -502,7 +544,9 @@ class World:
         n = self.op_n
         alphabet = cfg["alphabet"]
         sp = cfg["script_prefix"]
-        if sp and self.ncalls == 1 and n <= len(sp):
+        if self._forced is not None:
+            label = self._forced[min(n, len(self._forced)) - 1]
+        elif sp and self.ncalls == 1 and n <= len(sp):
             label = sp[n - 1]
         else:
             label = alphabet[self.ch.choose("op", len(alphabet), cfg["op_free"])] if len(alphabet) > 1 else alphabet[0]
@@ -524,13 +568,21 @@ class World:
             v = Val(n, fail=k, ra=self.cfg["ra_ticks"] if ra else None)
             self.trace.append(("op", n, label, t0, t1, self.reg(v)))
             return v
+        if kind == "x" and rest.endswith("@") and self._last_op_exc is not None:
+            # the operation raises the very same exception object again (e.g. a cached failure)
+            exc = self._last_op_exc
+            self.trace.append(("op", n, "x:" + exc.spec[0], t0, t1, self.ident(exc)))
+            _raise_here(exc)
         if kind == "x":
+            rest = rest.rstrip("@")
+            label = "x:" + rest
             k, _, ra = rest.partition("+")
             exc = OpError(f"op{n}:{k}")
             exc.spec = (k, self.cfg["ra_ticks"] if ra else None)
             code = STATUS_FOR.get(k)
             if code is not None:
                 exc.status = code
+            self._last_op_exc = exc
         elif label == "abort":
             exc = AbortRetryError()
         elif label == "kbd":
